@@ -10,14 +10,17 @@ import random
 from datetime import date, datetime, timedelta, timezone
 
 BOUND = {
-    "quick": "40 zones (20 fixed incl. Cairo, Casablanca, Lord_Howe, Monrovia, Istanbul, London, Dublin, Apia + 20 seeded) x default window "
+    "quick": "43 zones (23 fixed incl. Cairo, Casablanca, Lord_Howe, Monrovia, Istanbul, London, Dublin, Apia, Gaza, Anchorage, Volgograd + 20 seeded) x default window "
              "1970-2038 and 1 seeded sub-window x every transition of the window (-1 s, 0, +1 s), midpoints, 200 grid points; zoneinfo provider; "
-             "round trip to_tz and regeneration for the fixed zones",
+             "round trip to_tz and regeneration for the fixed zones; "
+             "ALL zone keys at 20 coarse instants (RFC reading vs source, away from changes)",
     "thorough": "all zone keys x default window and 2 seeded sub-windows, both providers",
 }
 FIXED = ["Europe/Berlin", "America/New_York", "Africa/Cairo", "Africa/Casablanca", "Australia/Lord_Howe", "Africa/Monrovia", "Europe/Istanbul",
          "Europe/London", "Europe/Dublin", "Pacific/Apia", "Asia/Kathmandu", "Asia/Tokyo", "UTC", "Etc/GMT-9", "America/Sao_Paulo", "Asia/Tehran",
-         "Pacific/Chatham", "America/Caracas", "Europe/Moscow", "Antarctica/Troll"]
+         "Pacific/Chatham", "America/Caracas", "Europe/Moscow", "Antarctica/Troll",
+         # renamed with unchanged offsets (IST/IDT -> EET/EEST, YST -> AKST, +04 -> MSK)
+         "Asia/Gaza", "America/Anchorage", "Europe/Volgograd"]
 
 
 def source_zone(provider, key):
@@ -179,6 +182,56 @@ def classify(src, trans, inst, want):
     return None
 
 
+COARSE = [datetime(y, m, 15, 12) for y in (1972, 1979, 1986, 1993, 2000, 2007, 2014, 2021, 2028, 2035) for m in (1, 7)]
+
+
+def coarse_all_zones(provider, findings, known_seen, fails):
+    """every zone key, default window: the generated component read by the RFC onset rule against the source zone at 20 instants
+    (mid-January / mid-July noon UTC of ten years), skipping instants with an offset / name change within three days"""
+    import icalendar
+    from icalendar import Timezone
+    tzp = icalendar.timezone.tzp
+    first, last = date(1970, 1, 1), date(2038, 1, 1)
+    n = 0
+    for key in all_keys(provider):
+        try:
+            src = source_zone(provider, key)
+            comp = Timezone.from_tzid(key, tzp, first, last)
+        except Exception as e:  # noqa
+            fails.append({"witness": {"zone": key, "coarse": True, "provider": provider}, "detail": f"[{provider}] {key}: from_tzid raises {type(e).__name__}: {e}"})
+            continue
+        wf = well_formed(comp, first, last)
+        if wf:
+            fails.append({"witness": {"zone": key, "coarse": True, "provider": provider}, "detail": f"[{provider}] {key}: not well formed: {wf}"})
+            continue
+        obs = observances_of(comp)
+
+        def sig(x):
+            a = x.replace(tzinfo=timezone.utc).astimezone(src)
+            return (a.utcoffset(), a.tzname())
+        for inst in COARSE:
+            n += 1
+            want = sig(inst)
+            if sig(inst - timedelta(days=3)) != want or sig(inst + timedelta(days=3)) != want:
+                continue
+            got = rfc_at(obs, inst)
+            if got is not None and got[2] == want[0] and got[3] == want[1]:
+                continue
+            m = (f"{key}: at {inst}Z the generated VTIMEZONE (RFC onset rule) gives {None if got is None else (got[2], got[3])}, "
+                 f"the source zone {want}")
+            # classification needs the changes around the instant only
+            near = transitions_in(src, inst - timedelta(days=140), inst + timedelta(days=140))
+            cls = classify(src, near, inst, want)
+            f = {"witness": {"zone": key, "coarse": True, "instant": inst.isoformat(), "provider": provider}, "detail": f"[{provider}] " + (f"<{cls}> " if cls else "") + m}
+            fid = match(f, findings, cls)
+            if fid:
+                known_seen.append(f"{fid['id']} {fid['what']} (witness {key} at {inst}Z [{provider}])")
+            elif len(fails) < 30:
+                fails.append(f)
+            break
+    return n
+
+
 def regenerate(provider, key, first, last):
     import icalendar
     from icalendar import Timezone
@@ -256,6 +309,12 @@ def run(b, tier, seed, findings, known_seen):
                             fails.append(f)
         finally:
             icalendar.timezone.tzp.use_default()
+    # every zone key, coarse probes (cheap: no transition search)
+    icalendar.timezone.tzp.use("zoneinfo")
+    try:
+        cases += coarse_all_zones("zoneinfo", findings, known_seen, fails)
+    finally:
+        icalendar.timezone.tzp.use_default()
     # windows that once failed (kept in every tier, pytz): a name shared by both kinds, a window inside summer time
     icalendar.timezone.tzp.use("pytz")
     try:
